@@ -31,6 +31,9 @@ def parse_generator_expressions(
 
     out = ''
     i = 0
+    # The value of a nested expression is text of the parameter it was written
+    # in: a ',' in it must not separate parameters of the enclosing expression
+    nested_comma = '\0'
 
     def equal(arg: str) -> str:
         col_pos = arg.find(',')
@@ -187,7 +190,7 @@ def parse_generator_expressions(
                 break
             elif i < len(raw) - 1 and raw[i] == '$' and raw[i + 1] == '<':
                 # Nested generator expression
-                exp += eval_generator_expressions()
+                exp += eval_generator_expressions().replace(',', nested_comma)
             else:
                 # Generator expression body
                 exp += raw[i]
@@ -216,7 +219,7 @@ def parse_generator_expressions(
     while i < len(raw):
         if i < len(raw) - 1 and raw[i] == '$' and raw[i + 1] == '<':
             # Generator expression detected --> try resolving it
-            out += eval_generator_expressions()
+            out += eval_generator_expressions().replace(nested_comma, ',')
         else:
             # Normal string, leave unchanged
             out += raw[i]
